@@ -752,6 +752,24 @@ func (vc *VC) evalTypeAssert(st *State, x *ast.TypeAssertExpr, commaOk bool) []T
 		// assertion to an interface type: dynamic type must implement it -- opaque predicate
 		pred := "impl_" + smtName(shortTypeName(t))
 		vc.U.ensureFun(pred, "(Int) Bool")
+		// which of the dynamic types seen so far implement the interface
+		if it, isIface := t.Underlying().(*types.Interface); isIface {
+			for i, ct := range vc.U.typeByID {
+				key := fmt.Sprintf("%s#%d", pred, i+1)
+				if vc.implFacts == nil {
+					vc.implFacts = map[string]bool{}
+				}
+				if vc.implFacts[key] {
+					continue
+				}
+				vc.implFacts[key] = true
+				if types.Implements(ct, it) {
+					vc.facts = append(vc.facts, fmt.Sprintf("(%s %d)", pred, i+1))
+				} else {
+					vc.facts = append(vc.facts, fmt.Sprintf("(not (%s %d))", pred, i+1))
+				}
+			}
+		}
 		okT := "(" + pred + " (dyn " + v.S + "))"
 		if commaOk {
 			return []Term{{sIte(okT, v.S, "anynil"), ts}, {okT, sortBool}}
